@@ -781,10 +781,36 @@ def cdf_checks():
         ("NormalTrunc(1,2,lo=0)", D.DistNormalTrunc(Lattice(), 1.0, 2.0,
                                                     lo=0.0),
          stats.truncnorm(-0.5, np.inf, loc=1, scale=2)),
+        # every way of leaving a bound out
+        ("NormalTrunc(0,1,hi=1)", D.DistNormalTrunc(Lattice(), 0.0, 1.0,
+                                                    hi=1.0),
+         stats.truncnorm(-np.inf, 1.0)),
+        ("NormalTrunc(0.5,2,hi=-2)", D.DistNormalTrunc(Lattice(), 0.5, 2.0,
+                                                       hi=-2.0),
+         stats.truncnorm(-np.inf, -1.25, loc=0.5, scale=2)),
+        ("NormalTrunc(0,1,lo=-1)", D.DistNormalTrunc(Lattice(), 0.0, 1.0,
+                                                     lo=-1.0),
+         stats.truncnorm(-1.0, np.inf)),
+        ("NormalTrunc(2,0.5) untruncated", D.DistNormalTrunc(Lattice(), 2.0,
+                                                             0.5),
+         stats.norm(2.0, 0.5)),
+        ("NormalTrunc(0,1,-0.5,0.5)", D.DistNormalTrunc(Lattice(), 0.0, 1.0,
+                                                        -0.5, 0.5),
+         stats.truncnorm(-0.5, 0.5)),
     ]
     ys = [1e-8, 1e-6, 1e-4, 0.001] + [i / 200 for i in range(1, 200)] + \
         [0.999, 1 - 1e-4, 1 - 1e-6, 1 - 1e-8]
     for name, d, ref in cases:
+        # the inverse is built on erf_inv (documented relative error 4.5e-8
+        # in the normal deviate); for a truncated normal that error is
+        # divided by the probability mass of the untruncated normal inside
+        # the bounds
+        mass = 1.0
+        if name.startswith("NormalTrunc"):
+            a_, b_ = ref.support() if hasattr(ref, "support") else (
+                -np.inf, np.inf)
+            base = stats.norm(d._mu, d._sigma)
+            mass = float(base.cdf(b_) - base.cdf(a_))
         xs = [float(x) for x in ref.ppf(np.linspace(1e-7, 1 - 1e-7, 401))]
         prev = -1.0
         for x in xs:
@@ -826,7 +852,7 @@ def cdf_checks():
             if x < prevx:
                 bad.append(("inverse-cdf-not-monotone", name, y, x, prevx))
             prevx = x
-            if abs(back - y) > 5e-8:
+            if abs(back - y) > 5e-8 / mass:
                 bad.append(("cdf-inverse-roundtrip", name, y, back))
     prev = -math.inf
     for i in range(-1999, 2000):
